@@ -261,9 +261,17 @@ impl C11 {
             out.push_str(s);
         };
         let nst = rng.range(1, 4);
+        // as one direct line, or as a program with one statement per line (then sometimes with the trace on:
+        // the [n] markers are output like any other and move the cursor)
+        let as_program = rng.chance(1, 3);
+        let tron = as_program && rng.chance(1, 4);
         let mut n_inputs = 0usize;
         let mut kinds = std::collections::BTreeSet::new();
         for _ in 0..nst {
+            if tron {
+                let marker = format!("[{}]", (stmts.len() + 1) * 10);
+                emit(&marker, &mut col, &mut out);
+            }
             let mut text = String::from(if rng.coin() { "PRINT " } else { "?" });
             let n = rng.range(0, 6);
             let mut last_sep = true;
@@ -380,8 +388,22 @@ impl C11 {
             stmts.push(t);
             // an INPUT between the PRINTs: the prompt appears where the cursor is, and the reply's newline
             // puts the column back to 0
+            if rng.chance(1, 8) {
+                // a key is asked for: nothing is echoed, the cursor stays where it is
+                if tron {
+                    let marker = format!("[{}]", (stmts.len() + 1) * 10);
+                    emit(&marker, &mut col, &mut out);
+                }
+                stmts.push("K9$=INKEY$".to_string());
+                out.push_str("<INKEY>");
+                kinds.insert("INKEY-between");
+            }
             if rng.chance(1, 6) {
                 let (st, prompt) = *rng.pick(&[("INPUT \"Q\";Z$", "Q? "), ("INPUT Z$", "? "), ("INPUT \"AB\";Z9", "AB? ")]);
+                if tron {
+                    let marker = format!("[{}]", (stmts.len() + 1) * 10);
+                    emit(&marker, &mut col, &mut out);
+                }
                 stmts.push(st.to_string());
                 out.push_str(&format!("<INPUT {:?} caps=true>", prompt));
                 col = 0;
@@ -402,12 +424,17 @@ impl C11 {
         }
         // as one direct line, or as a program with one statement per line: the column carries over either way
         let separate = false;
-        let as_program = rng.chance(1, 3);
         if as_program {
             kinds.insert("program-lines");
         }
+        if tron {
+            kinds.insert("trace-markers");
+        }
         let script: Vec<String> = if as_program {
             let mut v: Vec<String> = stmts.iter().enumerate().map(|(i, t)| format!("{} {}", (i + 1) * 10, t)).collect();
+            if tron {
+                v.insert(0, "5 TRON".to_string());
+            }
             v.push("RUN".to_string());
             v
         } else {
